@@ -298,9 +298,10 @@ pub fn cli_binary() -> PathBuf {
 fn line_piece() -> BoxedStrategy<Piece> {
     prop_oneof![
         8 => any::<u16>().prop_map(Piece::Key),
-        3 => proptest::sample::select(vec!['。', '！', '?', '.', '、', '「', '」', ' ', 'あ', 'a', '1', '　', '\t']).prop_map(Piece::Ch),
+        3 => proptest::sample::select(vec!['。', '！', '?', '.', '、', '「', '」', ' ', 'あ', 'a', '1', '　', '\t', '\r']).prop_map(Piece::Ch),
         2 => pool_char().prop_map(Piece::Ch),
         1 => "[0-9一二十,.]{1,5}".prop_map(Piece::Num),
+        1 => Just(Piece::Ch('\r')),
     ]
     .boxed()
 }
@@ -419,16 +420,20 @@ impl Property for C19 {
         }
         // file content; a line's own text must not contain line terminators
         let mut content = String::new();
-        let mut lines: Vec<String> = Vec::new();
         for l in &case.lines {
-            let t: String = render_pieces(&w.keys, &l.pieces).chars().filter(|c| *c != '\n' && *c != '\r').collect();
+            // a carriage return may be part of a line's text (a\rb, a\r before a real CRLF, a last line that ends with it)
+            let t: String = render_pieces(&w.keys, &l.pieces).chars().filter(|c| *c != '\n').collect();
             content.push_str(&t);
             content.push_str(["\n", "\r\n", ""][l.eol as usize % 3]);
-            lines.push(t);
         }
-        if case.lines.last().map(|l| l.eol % 3 == 2).unwrap_or(false) && lines.last().map(|l| l.is_empty()).unwrap_or(false) {
-            // an empty last line without terminator does not exist in the file
-            lines.pop();
+        // the lines of the file by the documented rule: a line ends with LF, and its terminator is (CR)? LF; a last
+        // line without LF has no terminator (an empty one does not exist)
+        let lines: Vec<String> = content
+            .split_inclusive('\n')
+            .map(|seg| seg.strip_suffix("\r\n").or_else(|| seg.strip_suffix('\n')).unwrap_or(seg).to_string())
+            .collect();
+        if lines.iter().any(|l| l.contains('\r')) {
+            rep.class("cli:carriage return inside a line's text");
         }
         let expected = match expected_output(w, case, &lines) {
             Ok(e) => e,
